@@ -248,6 +248,13 @@ func (x *Exec) registerReflect() {
 	x.lib["github.com/cosmos72/gomacro/xreflect.ValueOf"] = &libFn{apply: func(f *Frame, st *State, ins ssa.Instruction, args []Value) (Value, bool) {
 		i := args[0].(*Struct)
 		rv := B.UF("rv_of", rvSort, i.Fields[0].(*smt.Term), x.scalar(i.Fields[1], nil))
+		// an interface holding a value of a predeclared basic type has that type's kind
+		typ := i.Fields[0].(*smt.Term)
+		for k := uint64(kBool); k <= kString; k++ {
+			if t := KindType(k); t != nil {
+				x.assumeGlobal(B.Implies(B.Eq(typ, x.typeID(t)), B.Eq(x.rkind(rv), B.BVC(k, 64))))
+			}
+		}
 		return &Struct{[]Value{rv}}, true
 	}, mods: noMods}
 	x.lib["(github.com/cosmos72/gomacro/xreflect.Type).Kind"] = &libFn{apply: func(f *Frame, st *State, ins ssa.Instruction, args []Value) (Value, bool) {
@@ -284,7 +291,10 @@ func (x *Exec) ifaceConst(iface *Struct, k uint64) Value {
 		}
 		return &Struct{[]Value{B.FPConv(B.UF("iface_cre", smt.FP64, typ, pay), s), B.FPConv(B.UF("iface_cim", smt.FP64, typ, pay), s)}}
 	case "str":
-		return B.UF("iface_str", StrS, typ, pay)
+		r := B.UF("iface_str", StrS, typ, pay)
+		// an interface holding a value of the predeclared type string holds that string
+		x.assumeGlobal(B.Implies(B.Eq(typ, x.typeID(types.Typ[types.String])), B.Eq(r, B.UF("unbox_Str", StrS, pay))))
+		return r
 	}
 	unsupported("constant of kind %d", k)
 	return nil
